@@ -40,16 +40,30 @@ MIX = ("obj", [("b", "e", BOOL), ("i8", "e", I("I8")), ("u8", "e", I("U8")), ("i
                ("ms", "e", MAP(STR)), ("inner", "e", INNER), ("inners", "e", VEC(INNER)), ("vv", "e", VEC(VEC(I("I32"))))])
 ATTR = ("obj", [("a", "a", I("I32")), ("s", "a", STR), ("b", "a", BOOL), ("u", "a", I("U64")), ("v", "e", I("I32")), ("t", "e", STR)])
 ATTRONLY = ("obj", [("x", "a", I("I32")), ("type", "a", STR)])
+FLT = ("flt",)
+ENUM_NAMES = ["Red", "green", "Dark Blue&<"]
+ENUM = ("enum", ENUM_NAMES)
+
+
+def OPT(t):
+    return ("opt", t)
+
+
+OPTC = ("obj", [("oi", "e", OPT(I("I32"))), ("os", "e", OPT(STR)), ("uv", "e", OPT(VEC(I("I32")))), ("sp", "e", OPT(INNER)),
+                ("f", "e", FLT), ("e", "e", ENUM), ("vb", "e", VEC(BOOL)), ("c", "e", I("I8"))])
 
 CAT = [NULL, BOOL, I("I8"), I("U8"), I("I16"), I("U16"), I("I32"), I("U32"), I("I64"), I("U64"), DBL, STR,
        VEC(I("I32")), VEC(I("U32")), VEC(I("I64")), VEC(I("U64")), VEC(DBL), VEC(STR), VEC(NULL),
        VEC(VEC(I("I32"))), VEC(VEC(STR)), VEC(MAP(I("I32"))),
        MAP(BOOL), MAP(I("I32")), MAP(I("U64")), MAP(DBL), MAP(STR), MAP(VEC(I("I32"))), MAP(MAP(STR)),
        INNER, MIX, VEC(INNER), MAP(INNER), ATTR, VEC(ATTR), ATTRONLY, VEC(ATTRONLY),
-       STR, STR, STR, VEC(STR), MAP(STR)]          # u16string, u32string, wstring, vector<u16string>, map<string,u32string>
+       STR, STR, STR, VEC(STR), MAP(STR),          # u16string, u32string, wstring, vector<u16string>, map<string,u32string>
+       VEC(BOOL), FLT, VEC(FLT), MAP(FLT), ENUM, VEC(ENUM), MAP(ENUM), I("I8"), VEC(I("I8")),       # 42..50: vector<bool>, float, enum, char
+       OPT(I("I32")), OPT(STR), VEC(OPT(I("I32"))), VEC(OPT(STR)), MAP(OPT(DBL)), OPT(VEC(I("I32"))),   # 51..56: optional / unique_ptr
+       OPTC, VEC(OPTC)]                                                                               # 57, 58
 
 JSON_TYPES = [i for i in range(len(CAT)) if i not in (33, 34, 35, 36)]
-XML_TYPES = [i for i in range(12, len(CAT)) if i not in (37, 38, 39)]
+XML_TYPES = [i for i in range(12, len(CAT)) if i not in (37, 38, 39, 43, 46, 49, 51, 52, 56)]
 ENCODINGS = ["utf8", "utf16le", "utf16be", "utf32le", "utf32be"]
 PYCODEC = {"utf8": "utf-8", "utf16le": "utf-16-le", "utf16be": "utf-16-be", "utf32le": "utf-32-le", "utf32be": "utf-32-be"}
 BOM = {"utf8": b"\xef\xbb\xbf", "utf16le": b"\xff\xfe", "utf16be": b"\xfe\xff", "utf32le": b"\xff\xfe\x00\x00", "utf32be": b"\x00\x00\xfe\xff"}
@@ -74,6 +88,12 @@ def fmt_value(v):
         return "s" + hx(v[1])
     if k == "a":
         return "[" + ",".join(fmt_value(x) for x in v[1]) + "]"
+    if k == "g":
+        return "g%016x" % v[1]
+    if k == "e":
+        return "e%d" % v[1]
+    if k == "O":
+        return "o-" if v[1] is None else "o+" + fmt_value(v[1])
     return "{" + ",".join("s%s:%s" % (hx(kk), fmt_value(x)) for kk, x in v[1]) + "}"
 
 
@@ -105,6 +125,20 @@ def parse_value(s):
         if c == "d":
             pos[0] += 1; st = pos[0]; pos[0] += 16
             return ("d", int(s[st:pos[0]], 16))
+        if c == "g":
+            pos[0] += 1; st = pos[0]; pos[0] += 16
+            return ("g", int(s[st:pos[0]], 16))
+        if c == "e":
+            pos[0] += 1; st = pos[0]
+            while peek().isdigit():
+                pos[0] += 1
+            return ("e", int(s[st:pos[0]]))
+        if c == "o":
+            pos[0] += 1
+            if peek() == "-":
+                pos[0] += 1; return ("O", None)
+            assert peek() == "+"; pos[0] += 1
+            return ("O", value())
         if c == "s":
             pos[0] += 1
             return ("s", hexstr())          # bytes: a loaded string is shown as its raw bytes
@@ -228,6 +262,26 @@ def rand_double(rng):
     return b if not nonfinite(b) else b & 0x800FFFFFFFFFFFFF
 
 
+def f32_as_double_bits(f32bits):
+    return bits_of(struct.unpack("<f", struct.pack("<I", f32bits))[0])
+
+
+FLT_SPECIAL = [0x00000000, 0x80000000, 0x3F800000, 0xBF800000, 0x3DCCCCCD, 0x7F7FFFFF, 0xFF7FFFFF, 0x00000001, 0x007FFFFF, 0x00800000,
+               0x3F800001, 0x40490FDB, 0x4B7FFFFF, 0x4B800000, 0x7F800000, 0xFF800000, 0x7FC00000]
+
+
+def rand_float(rng):
+    k = rng.random()
+    if k < 0.4:
+        return f32_as_double_bits(rng.choice(FLT_SPECIAL))
+    if k < 0.7:
+        return bits_of(struct.unpack("<f", struct.pack("<f", float(rng.randrange(-10 ** 5, 10 ** 5)) / rng.choice([1, 2, 4, 8, 10, 100])))[0])
+    b = rng.getrandbits(32)
+    if (b >> 23) & 0xFF == 0xFF:
+        b &= 0x807FFFFF
+    return f32_as_double_bits(b)
+
+
 def rand_int(rng, kind):
     lo, hi = INT_RANGE[kind]
     k = rng.random()
@@ -255,6 +309,12 @@ def gen_value(rng, ty, arch, depth=0, nonempty=0.0):
         return ("d", rand_double(rng))
     if k == "str":
         return ("s", rand_string(rng, arch))
+    if k == "flt":
+        return ("g", rand_float(rng))
+    if k == "enum":
+        return ("e", rng.randrange(len(ty[1])))
+    if k == "opt":
+        return ("O", None) if rng.random() < 0.3 else ("O", gen_value(rng, ty[1], arch, depth + 1, nonempty))
     if k == "vec":
         n = rng.choice([0, 1, 1, 2, 3, 5]) if depth < 2 else rng.choice([0, 1, 2])
         if n == 0 and depth > 0 and rng.random() < nonempty:
@@ -271,6 +331,12 @@ def gen_value(rng, ty, arch, depth=0, nonempty=0.0):
 
 def default_value(ty):
     k = ty[0]
+    if k == "flt":
+        return ("g", 0)
+    if k == "enum":
+        return ("e", 0)
+    if k == "opt":
+        return ("O", None)
     return {"null": ("n",), "bool": ("b", False), "int": ("i", 0), "dbl": ("d", 0), "str": ("s", "")}.get(k) or \
         (("a", []) if k == "vec" else ("o", []) if k == "map" else ("o", [(n, default_value(t)) for n, _, t in ty[1]]))
 
@@ -287,6 +353,8 @@ def walk(ty, v, f, path=(), level=0, kind="e"):
     elif ty[0] == "obj":
         for (n, fk, ft), (_, x) in zip(ty[1], v[1]):
             walk(ft, x, f, path, level + 1, fk)
+    elif ty[0] == "opt" and v[1] is not None:
+        walk(ty[1], v[1], f, path, level, kind)
 
 
 def all_strings(ty, v, keys=True):
@@ -310,14 +378,22 @@ def classes_of(arch, cfg, tyi, v):
     if arch == "json":
         pass
     else:
-        st = {"cr": False}
+        st = {"cr": False, "f29n": False, "f53": False}
 
         def f(t, x, level, kind):
             if t[0] == "str" and kind == "e" and "\r" in x[1]:
                 st["cr"] = True
+            if t[0] == "opt" and x[1] is None and t[1][0] in ("vec", "map", "obj"):
+                st["f29n"] = True
+            if t[0] == "opt" and x[1] is not None and t[1][0] == "str" and x[1][1] == "":
+                st["f53"] = True
         walk(ty, v, f)
         if st["cr"]:
             cl.add("J41")
+        if st["f29n"]:
+            cl.add("F29n")
+        if st["f53"]:
+            cl.add("F53")
         if medium == "stream" and enc != "utf8" and bom == "0":
             cl.add("J47")
     return cl
@@ -331,9 +407,11 @@ def same_mod_nan(a, b):
     def eq(x, y):
         if x[0] != y[0]:
             return False
-        if x[0] == "d":
+        if x[0] in ("d", "g"):
             xn, yn = nonfinite(x[1]) and x[1] & 0xFFFFFFFFFFFFF, nonfinite(y[1]) and y[1] & 0xFFFFFFFFFFFFF
             return (xn and yn) or x[1] == y[1]
+        if x[0] == "O":
+            return (x[1] is None and y[1] is None) or (x[1] is not None and y[1] is not None and eq(x[1], y[1]))
         if x[0] == "a":
             return len(x[1]) == len(y[1]) and all(eq(p, q) for p, q in zip(x[1], y[1]))
         if x[0] == "o":
@@ -570,6 +648,81 @@ def effective(cfg):
     return enc, bom
 
 
+# ================================================================== layout of the produced documents (observation of the options)
+JTOK = re.compile(r'"(?:\\.|[^"\\])*"|[\[\]{},:]|[^\s\[\]{},:"]+')
+
+
+def json_layout_ok(text, fmt):
+    """compact: no white space between tokens; pretty (RapidJSON PrettyWriter): every array item, member name and closing
+    bracket of a non-empty container starts a line indented by depth x count padding characters, ': ' after a name"""
+    pad = None if fmt == "c" else ((" " if fmt[0] == "s" else "\t") * int(fmt[1:]))
+    pos = 0
+    stack = []            # [kind, items so far, expecting value after colon]
+    for m in JTOK.finditer(text):
+        ws = text[pos:m.start()]
+        t = m.group(0)
+        pos = m.end()
+        if pad is None:
+            if ws:
+                return False
+            continue
+        if t in ",:":
+            exp = ""
+            if t == ":":
+                stack[-1][2] = True
+        elif t in "]}":
+            k = stack.pop()
+            exp = ("\n" + pad * len(stack)) if k[1] else ""
+        else:
+            if not stack:
+                exp = ""
+            elif stack[-1][2]:
+                exp = " "
+                stack[-1][2] = False
+            else:
+                exp = "\n" + pad * len(stack)
+                stack[-1][1] += 1
+            if stack and stack[-1][0] == "[" and not stack[-1][2]:
+                pass
+            if t in "[{":
+                stack.append([t, 0, False])
+        if ws != exp:
+            return False
+    return text[pos:] == ""
+
+
+def xml_layout_ok(text, fmt):
+    """compact (format_raw): nothing between the tags; pretty (format_indent): every tag that starts a line is indented by
+    depth x count padding characters (documents whose values contain no line break only)"""
+    body = re.sub(r"^<\?xml[^>]*\?>", "", text)
+    if fmt == "c":
+        return not re.search(r">[ \t\r\n]+<", body)
+    pad = (" " if fmt[0] == "s" else "\t") * int(fmt[1:])
+    depth = 0
+    for line in text.split("\n"):
+        if not line:
+            continue
+        st = line.lstrip(" \t")
+        ind = line[:len(line) - len(st)]
+        if st.startswith("<?xml"):
+            if ind:
+                return False
+            continue
+        if st.startswith("</"):
+            depth -= 1
+            if ind != pad * depth:
+                return False
+            continue
+        if not st.startswith("<"):
+            return False
+        if ind != pad * depth:
+            return False
+        # <a>, <a ...>: opens unless it is closed on the same line (<a/> or <a>text</a>)
+        if not (st.endswith("/>") or re.search(r"</[^>]+>$", st)):
+            depth += 1
+    return depth == 0
+
+
 # ================================================================== the staged run
 VERIF = os.path.dirname(os.path.dirname(os.path.abspath(__file__)))
 
@@ -616,7 +769,7 @@ def nontrivial_value(ty, v):
             hit[0] = True
         if t[0] == "int" and abs(x[1]) >= 2 ** 31:
             hit[0] = True
-        if t[0] in ("dbl", "null"):
+        if t[0] in ("dbl", "null", "flt", "opt", "enum"):
             hit[0] = True
         if t[0] in ("vec", "map") and (level > 0 or len(x[1]) == 0):
             hit[0] = True
@@ -666,6 +819,8 @@ def value_bytes(v):
         return ("a", [value_bytes(x) for x in v[1]])
     if k == "o":
         return ("o", [(kk.encode("utf-8") if isinstance(kk, str) else kk, value_bytes(x)) for kk, x in v[1]])
+    if k == "O" and v[1] is not None:
+        return ("O", value_bytes(v[1]))
     return v
 
 
@@ -691,6 +846,21 @@ def run_checks(prop, ctx, vlib, want=("C08", "C01")):
                 known_lines.append("%s: %s [case: %s -> %s]" % (k["id"], k["what"], k["case"], o[:160]))
             else:
                 notes.append("witness of known finding %s no longer reproduces: %s -> %s" % (k["id"], k["case"], o[:200]))
+
+    # ---------------- hand-made documents of the corpus: implementation vs model on the load (jx.load lines, UTF-8)
+    lcases = [l for l in load_corpus(prop) if l.startswith("jx.load ")]
+    if lcases:
+        lm = []
+        for l in lcases:
+            t = l.split(" ")
+            lm.append("m.load %s %s utf8 %s %s %s %s" % (t[1], t[2], t[3], t[4], t[5], t[6]))
+        oi = vlib.run_driver(impl, lcases, jobs=1)
+        om = vlib.run_driver(model, lm, jobs=1)
+        for l, a, b in zip(lcases, oi, om):
+            bump("corpus load " + ("agrees" if a == b else "DIFFERS"))
+            if a != b and not same_mod_nan(a, b):
+                diffs.append(dict(driver="jx", case=l, implementation=a[:300], model=b[:300], judge="HOLD",
+                                  why="model and implementation differ on a hand-made document of the corpus"))
 
     # ---------------- stage 1: save + load back on the implementation
     cases = []
@@ -760,7 +930,7 @@ def run_checks(prop, ctx, vlib, want=("C08", "C01")):
             stats["disagreements"] += 1
             # the property fails on the implementation here: a listed known finding must explain it, exactly
             if agree and load_agree:
-                for fid in ("J46", "J41", "J47"):
+                for fid in ("J46", "J41", "J47", "F29n", "F53"):
                     if fid in cl and fid in known_ids:
                         explained = fid
                         break
@@ -781,6 +951,21 @@ def run_checks(prop, ctx, vlib, want=("C08", "C01")):
             rec.update(judge="HOLD", why="model and implementation differ, the property holds on this input")
             if len(diffs) < 25:
                 diffs.append(rec)
+        if saved and prop_ok and agree:
+            # observation: the format options reach the writers (indentation character and count per nesting level)
+            fmt = c["cfg"].split(":")[3]
+            raw = bytes.fromhex(c["save"][3:]) if c["save"][3:] != "-" else b""
+            txt = decode_bytes(raw, c["enc"], c["bom"] == "1")
+            if txt is not None:
+                if arch == "json":
+                    lay = json_layout_ok(txt, fmt)
+                else:
+                    skip = any("\n" in st_ or "\r" in st_ or (st_ and not st_.strip(" \t")) for st_ in all_strings(CAT[tyi], v))
+                    lay = True if skip else xml_layout_ok(txt, fmt)
+                bump("layout %s %s" % (arch, "as configured" if lay else "NOT as configured"))
+                if not lay and len(diffs) < 25:
+                    diffs.append(dict(driver="jx", case=c["line"], implementation=c["save"][:300], judge="HOLD", document=txt[:300],
+                                      why="the document is a standard rendering of the value but its layout is not the one configured (enableFormat / paddingChar / paddingCharNum)"))
         if saved and arch == "json" and prop_ok:
             docs.append(c)
         if saved and arch == "xml" and agree and mchk.find("PROP fail:not-well-formed") < 0 and mchk.find("PROP fail:bom") < 0:
@@ -798,7 +983,7 @@ def run_checks(prop, ctx, vlib, want=("C08", "C01")):
 
     samples = [dict(case=c["line"], implementation=(c["save"][:200] + " | " + c["load"][:120]), model=c.get("mchk")) for c in cases[:2]]
     samples += r3["samples"]
-    rule = ("typed values from a 42-entry catalogue of C++ targets (scalars at root, vector<T>, map<string,T>, classes with members of every kind, nested; "
+    rule = ("typed values from a 59-entry catalogue of C++ targets (scalars at root, vector<T>, map<string,T>, classes with members of every kind, nested; "
             "XML attributes) with strings over all of Unicode (quotes, backslashes, C0 controls, markup characters, astral planes, white space), integer and double "
             "extremes, empty and nested containers, null x {memory, stream} x 5 encodings x BOM x {compact, pretty x {space, tab} x count 0..8}: saved and loaded back "
             "by the implementation (jx.rt), every produced document decoded per configuration and parsed by the extracted Coq reference parser and compared with the "
@@ -824,6 +1009,8 @@ def parse_value_text(s):
             return ("a", [conv(x) for x in v[1]])
         if v[0] == "o":
             return ("o", [(k.decode("utf-8"), conv(x)) for k, x in v[1]])
+        if v[0] == "O" and v[1] is not None:
+            return ("O", conv(v[1]))
         return v
     return conv(parse_value(s))
 
@@ -841,6 +1028,8 @@ def int_targets_hit(ty, dom_a, dom_b):
     def is_intlex(x):
         return isinstance(x, NumLex) and not any(ch in x for ch in ".eE")
     k = ty[0]
+    if k == "opt":
+        return int_targets_hit(ty[1], dom_a, dom_b)
     if k in ("int", "bool"):
         return isinstance(dom_a, NumLex) and isinstance(dom_b, NumLex) and is_intlex(dom_a) != is_intlex(dom_b)
     if k == "vec" and isinstance(dom_a, tuple) and isinstance(dom_b, tuple) and dom_a[0] == "a" == dom_b[0]:
@@ -861,7 +1050,9 @@ def neg_zero_hit(ty, dom_a, dom_b):
     def is_intlex(x):
         return isinstance(x, NumLex) and not any(ch in x for ch in ".eE")
     k = ty[0]
-    if k == "dbl":
+    if k == "opt":
+        return neg_zero_hit(ty[1], dom_a, dom_b)
+    if k in ("dbl", "flt"):
         return isinstance(dom_a, NumLex) and isinstance(dom_b, NumLex) and num_value(dom_a) == 0 and \
             is_intlex(dom_a) != is_intlex(dom_b) and (dom_a.startswith("-") or dom_b.startswith("-"))
     if k == "vec" and isinstance(dom_a, tuple) and isinstance(dom_b, tuple) and dom_a[0] == "a" == dom_b[0]:
